@@ -6,7 +6,7 @@ THEOREMS = ["C09_parse_never_stuck", "C09_feed_never_stuck", "C09_feed_split_irr
             "C09_refparser_sound_complete", "C09_refparser_error_index", "C09_automaton_eq_refparser",
             "C09_automaton_accepts_grammar", "C09_automaton_error_index", "C09_unfinished_is_viable"]
 MODELS = ("parse",)
-RULE = ("(1) every viable token prefix up to the tier's length bound (quick 8, thorough 10 + core alphabet at 11) over "
+RULE = ("(1) every viable token prefix up to the tier's length bound (quick 9, thorough 11) over "
         "the 18 token kinds: each viable prefix is extended by every kind (literal and identifier spellings vary with "
         "the position) and by 12 further in/out-of-range literal spellings; a rejected prefix is not extended; "
         "(2) grammar-directed random sentences (<= 60 tokens) each also with one-token mutations (replace/insert/"
@@ -206,17 +206,20 @@ def enumerate_prefixes(ctx, tally, depth, extra_depth):
         ncore = len(alpha)
         if d <= extra_depth:
             alpha = alpha + EXTRA
-        cases = [(p + " " + a) if p else a for p in level for a in alpha]
-        viable = compare(ctx, tally, "viable-prefix-enumeration", cases, want_viable=True)
-        nxt = []
         na = len(alpha)
-        for j, c in enumerate(cases):
-            # only core spellings are extended: an in-range variant continues exactly like the core one
-            if viable[j] and (j % na) < ncore:
-                nxt.append(c)
-        sizes.append((d, len(cases), len(nxt)))
+        nxt, ncases = [], 0
+        chunk = max(1, 600000 // na)                      # bound the memory of one comparison batch
+        for lo in range(0, len(level), chunk):
+            cases = [(p + " " + a) if p else a for p in level[lo:lo + chunk] for a in alpha]
+            viable = compare(ctx, tally, "viable-prefix-enumeration", cases, want_viable=True)
+            ncases += len(cases)
+            for j, c in enumerate(cases):
+                # only core spellings are extended: an in-range variant continues exactly like the core one
+                if viable[j] and (j % na) < ncore:
+                    nxt.append(c)
+        sizes.append((d, ncases, len(nxt)))
         level = nxt
-        if ctx.violations and len(ctx.violations) > 200:
+        if len(ctx.violations) > 200:
             break
     return sizes
 
@@ -378,9 +381,9 @@ def run(ctx):
         common.build_model(list(MODELS))       # Parse/*.vo may have been rebuilt with the proofs
     tally = Tally()
     if ctx.thorough:
-        depth, extra_depth, nrand, muts = 11, 10, 40000, 4
+        depth, extra_depth, nrand, muts = 11, 11, 100000, 4
     else:
-        depth, extra_depth, nrand, muts = 8, 8, 3000, 3
+        depth, extra_depth, nrand, muts = 9, 9, 6000, 3
     sizes = enumerate_prefixes(ctx, tally, depth, extra_depth)
     ctx.exhaustive = True
     random_sentences(ctx, tally, nrand, muts)
